@@ -9,7 +9,8 @@
    (the emitted expression texts, plain and under `mask &`), Gen/CHelpers.v (_limbs, _makemask,
    _getarglimb, the order of the loop tests of _build_concat). *)
 From PyRTL Require Import Sim.FastModel Sim.FastModelProofs Sim.SimCorrect.
-From PyRTL Require Import Sim.CLimb Sim.CLimbProofs.
+From PyRTL Require Import Sim.CLimb Sim.CLimbProofs Sim.CLimbMul Sim.CLimbConcat.
+From PyRTL Require Import Netlist.Sem.
 
 (* ======================= translated fragments ======================================= *)
 
@@ -55,16 +56,13 @@ Theorem C02_fast_refines_spec : forall nl dflt regmap memmap inss,
 Proof. exact fast_refines_spec. Qed.
 Print Assumptions C02_fast_refines_spec.
 
-(* fast_wfb excludes mux / concat / select nets whose destination is narrower than the natural
-   result.  The exclusion is necessary: the statement is false of the faithful model without it
-   (the code emits `dest = mask & <unparenthesised expr>`). *)
-Theorem C02_fast_truncating_refuted :
-  exists nl dflt ins,
-    wfb nl = true /\ legal_ins nl ins
-    /\ fst (fast_step nl dflt (fast_init nl dflt [] []) ins) 4
-       <> fst (step nl dflt (init_state nl dflt [] []) ins) 4.
-Proof. exact fast_truncating_refuted_lemma. Qed.
-Print Assumptions C02_fast_truncating_refuted.
+(* fast_wfb = the width rules of Block.sanity_check_net (equal operand widths, mux branches) and
+   "arguments of r/@ nets are ready where the net stands"; it holds of every block the harness
+   dumps (evaluated per design).  While the source's masked assignment was `dest = mask & expr`
+   (unparenthesised) it also had to exclude truncating mux/concat/select nets; the generated
+   flag Gen/FastOps.fast_mask_parenthesised records which text the source has now. *)
+Example C02_fast_mask_text_parenthesised : fast_mask_parenthesised = true.
+Proof. reflexivity. Qed.
 
 (* ======================= CompiledSimulation: per-builder, every limb count ============== *)
 
@@ -147,6 +145,37 @@ Theorem C02_c_select_correct : forall w src idx wd,
 Proof. exact c_select_correct. Qed.
 Print Assumptions C02_c_select_correct.
 
+(* schoolbook rows with 128-bit partial products, every limb count (row / column invariants
+   modulo 2^destwidth in Sim/CLimbMul.v) *)
+Theorem C02_c_mul_correct : forall wa a wb b wd,
+  0 <= wa -> 0 <= wb -> limbs_ok wa a -> limbs_ok wb b -> 0 <= wd ->
+  limbs_ok wd (c_mul wa a wb b wd)
+  /\ limbs_to_Z (c_mul wa a wb b wd) = (limbs_to_Z a * limbs_to_Z b) mod 2 ^ wd.
+Proof. exact c_mul_correct. Qed.
+Print Assumptions C02_c_mul_correct.
+
+(* piece assembly with the leftover of a straddling piece carried into the next limb; every
+   argument list and limb count.  Relies on Gen/CHelpers.c_concat_split_first = true (the order
+   of the loop tests in the source); with the other order (defect F5) the proof fails. *)
+Theorem C02_c_concat_correct : forall (args : list (Z * list Z)) (wd : Z),
+  Forall (fun wa => 0 <= fst wa /\ limbs_ok (fst wa) (snd wa)) args ->
+  0 <= wd <= cat_total args ->
+  limbs_ok wd (c_concat args wd)
+  /\ limbs_to_Z (c_concat args wd) = concat_spec (cat_vals args) mod 2 ^ wd.
+Proof. exact c_concat_correct. Qed.
+Print Assumptions C02_c_concat_correct.
+
+Example C02_concat_order_in_source : c_concat_split_first = true.
+Proof. reflexivity. Qed.
+
+(* register update through regtmp, masked like a wire copy *)
+Theorem C02_c_regcopy_correct : forall wrin rin wrout,
+  limbs_ok wrin rin -> 0 <= wrout <= wrin ->
+  limbs_ok wrout (c_regcopy wrin rin wrout)
+  /\ limbs_to_Z (c_regcopy wrin rin wrout) = limbs_to_Z rin mod 2 ^ wrout.
+Proof. exact c_regcopy_correct. Qed.
+Print Assumptions C02_c_regcopy_correct.
+
 (* run(): unpack (pack v n) = v *)
 Theorem C02_input_packing_roundtrip : forall n v,
   0 <= v < 2 ^ (64 * Z.of_nat n) -> c_unpack (c_pack n v) = v.
@@ -193,5 +222,7 @@ Example C02_example_limbs :
   let b := c_pack (nlimbs 130) (2 ^ 128 + 1) in
   limbs_to_Z (c_add 130 a 130 b 131) = 2 ^ 129 + 2 ^ 64 - 1 + (2 ^ 128 + 1)
   /\ limbs_to_Z (c_sub 130 b 130 a 131) = (2 ^ 128 + 1 - (2 ^ 129 + 2 ^ 64 - 1)) mod 2 ^ 131
-  /\ limbs_to_Z (c_cmp Z.ltb 130 b 130 a) = 1.
+  /\ limbs_to_Z (c_cmp Z.ltb 130 b 130 a) = 1
+  /\ limbs_to_Z (c_mul 130 a 130 b 200) = ((2 ^ 129 + 2 ^ 64 - 1) * (2 ^ 128 + 1)) mod 2 ^ 200
+  /\ limbs_to_Z (c_concat [(32, c_pack (nlimbs 32) 5); (33, c_pack (nlimbs 33) 7)] 65) = 5 * 2 ^ 33 + 7.
 Proof. vm_compute. repeat split; reflexivity. Qed.
